@@ -141,7 +141,7 @@ func sizeFor(rng *lib.Rand) int {
 // ---------------------------------------------------------------- monitor 1
 
 func stressInProcess() {
-	n := r.N(18, 400)
+	n := r.N(18, 240)
 	for h := 0; h < n; h++ {
 		rng := r.Rand(fmt.Sprintf("stress-%d", h))
 		dir := filepath.Join(scratch, fmt.Sprintf("inproc-%d", h))
@@ -202,7 +202,7 @@ func checkLeftovers(dir string, urls []string, where string) {
 // hammer: a long free-running history without hook sleeps and with small bundles of DIFFERENT sizes, to reach windows
 // inside the reader (e.g. between a stat and an open); only the online monitors and freshness apply (too long for porcupine).
 func hammer() {
-	n := r.N(1, 12)
+	n := r.N(1, 6)
 	for h := 0; h < n; h++ {
 		rng := r.Rand(fmt.Sprintf("hammer-%d", h))
 		dir := filepath.Join(scratch, fmt.Sprintf("hammer-%d", h))
